@@ -30,6 +30,7 @@ ResultOk(e) ==
   KindId(s.kind) \in JKinds =>
     /\ ~e.panicked
     /\ On("allocs") => e.allocs = 0            \* C19: no heap allocation, whatever the size
+    /\ On("entries") => e.entries = 0          \* C16: every entry point of the kind gave this very result
     /\ On("slots") => e.slots_ok = 1           \* C17: canaries, untouched slots beyond the count
     /\ On("st") => StOf(e.st) = s.st
     /\ On("n") => /\ s.st = "C" => e.st # 0
@@ -38,10 +39,10 @@ ResultOk(e) ==
     /\ s.st = "C" /\ e.st = 1 =>
          /\ On("fields") /\ s.kind = "req" => SpanIs(e.m, s.method) /\ SpanIs(e.p, s.path) /\ e.v = s.version
          /\ On("fields") /\ s.kind = "resp" => e.v = s.version /\ e.c = s.code /\ SpanIs(e.r, s.reason)
-         /\ On("count") /\ s.kind # "chunk" => Len(e.h) = Len(s.hdrs)
+         /\ On("count") /\ s.kind # "chunk" => e.hcount = Len(s.hdrs)
          /\ On("headers") /\ s.kind # "chunk" =>
-              /\ Len(e.h) = Len(s.hdrs)
-              /\ \A i \in 1..Len(s.hdrs) : /\ <<e.h[i][1], e.h[i][2]>> = s.hdrs[i][1]
+              /\ e.hcount = Len(s.hdrs)
+              /\ \A i \in 1..Len(e.h) :           \* (lists of more than 2000 headers are sent as a count only) /\ <<e.h[i][1], e.h[i][2]>> = s.hdrs[i][1]
                                            /\ SpanIs(<<e.h[i][3], e.h[i][4]>>, s.hdrs[i][2])
          /\ On("digits") /\ s.kind = "chunk" => e.digits = s.digits
 TEnd == /\ l <= Len(Rec) /\ Rec[l].ev = "end" /\ ResultOk(Rec[l]) /\ l' = l + 1 /\ UNCHANGED s
